@@ -42,12 +42,13 @@ def _import_base():
 class AbsMeasureBase:
     """mixin with the implementation; the concrete class is created lazily so that rpylib is imported by the check first"""
 
-    def _init(self, ctx, name, finite_activity=False, finite_variation=True, bg_index=None, max_k=2):
+    def _init(self, ctx, name, finite_activity=False, finite_variation=True, bg_index=None, max_k=2, mean_value_links=False):
         self.ctx = ctx
         self.name = name
         self.finite_activity = finite_activity
         self.finite_variation = finite_variation or finite_activity
         self.bg_index = bg_index
+        self.mean_value_links = mean_value_links  # x*M_k <= M_{k+1} <= y*M_k: non-linear, only for obligations that need them
         self.L = {k: z3.Function(f"{name}_L{k}", R, R) for k in range(max_k + 1)}
         self.T = {k: z3.Function(f"{name}_T{k}", R, R) for k in range(max_k + 1)}
         self.dens = z3.Function(f"{name}_density", R, R)
@@ -174,34 +175,39 @@ class AbsMeasureBase:
 
     # ---- axioms on occurring points
     def _axioms(self):
+        """axioms for the points that appeared since the last call (incremental)"""
         out = []
         ks = sorted(self.L)
-        for pts, F, neg in ((self.pts_neg, self.L, True), (self.pts_pos, self.T, False)):
-            for t in pts:
+        done = self.ctx.gen_state.setdefault(id(self), [0, 0])
+        for idx, (pts, F, neg) in enumerate(((self.pts_neg, self.L, True), (self.pts_pos, self.T, False))):
+            n0 = done[idx] if not __import__("os").environ.get("SYMX_FULLGEN") else 0
+            for t in pts[n0:]:
                 for k in ks:
                     v = F[k](t)
                     if k % 2 == 0:
                         out.append(v >= 0)
                     else:
                         out.append(v <= 0 if neg else v >= 0)
-            for s, t in combinations(pts, 2):
-                for k in ks:
-                    # mass of the interval between the two points (whichever order), sign and mean-value links
-                    for lo, hi in ((s, t), (t, s)):
-                        cond = lo < hi
-                        mk = (F[k](hi) - F[k](lo)) if neg else (F[k](lo) - F[k](hi))
-                        if k % 2 == 0:
-                            out.append(z3.Implies(cond, mk >= 0))
-                        else:
-                            out.append(z3.Implies(cond, mk <= 0 if neg else mk >= 0))
-                        out.append(z3.Implies(lo == hi, F[k](lo) == F[k](hi)))
-                        if k + 1 in F:
-                            mk1 = (F[k + 1](hi) - F[k + 1](lo)) if neg else (F[k + 1](lo) - F[k + 1](hi))
-                            # lo * M_k <= M_{k+1} <= hi * M_k  when x^k >= 0 on the interval, reversed otherwise
-                            if k % 2 == 0 or not neg:
-                                out.append(z3.Implies(cond, z3.And(lo * mk <= mk1, mk1 <= hi * mk)))
+            for j in range(n0, len(pts)):
+                t = pts[j]
+                for s in pts[:j]:
+                    for k in ks:
+                        for lo, hi in ((s, t), (t, s)):
+                            cond = lo < hi
+                            mk = (F[k](hi) - F[k](lo)) if neg else (F[k](lo) - F[k](hi))
+                            if k % 2 == 0:
+                                out.append(z3.Implies(cond, mk >= 0))
                             else:
-                                out.append(z3.Implies(cond, z3.And(lo * mk >= mk1, mk1 >= hi * mk)))
+                                out.append(z3.Implies(cond, mk <= 0 if neg else mk >= 0))
+                            out.append(z3.Implies(lo == hi, F[k](lo) == F[k](hi)))
+                            if k + 1 in F and self.mean_value_links:
+                                mk1 = (F[k + 1](hi) - F[k + 1](lo)) if neg else (F[k + 1](lo) - F[k + 1](hi))
+                                # lo * M_k <= M_{k+1} <= hi * M_k  when x^k >= 0 on the interval, reversed otherwise
+                                if k % 2 == 0 or not neg:
+                                    out.append(z3.Implies(cond, z3.And(lo * mk <= mk1, mk1 <= hi * mk)))
+                                else:
+                                    out.append(z3.Implies(cond, z3.And(lo * mk >= mk1, mk1 >= hi * mk)))
+            done[idx] = len(pts)
         return out
 
 
@@ -252,10 +258,15 @@ class AbsCopulaBase:
         if key not in self._seen:
             self._seen.add(key)
             self.apps.append((pattern, fin))
-        zero = [t == 0 for t in fin]
-        if not zero:
-            return val
-        return z3.If(z3.Or(*zero), z3.RealVal(0), val)
+        # grounded: F vanishes when an argument is 0.  Concretely-zero arguments are resolved here; for symbolic arguments the fact
+        # is an axiom on the application (keeps masses If-free, so polynomial identities between masses simplify syntactically)
+        for t in fin:
+            c = concrete_value(z3.simplify(t))
+            if c is not None and c == 0:
+                return z3.RealVal(0)
+        if fin:
+            self.ctx.axiom_once(("grounded", self.name) + key, z3.Implies(z3.Or(*[t == 0 for t in fin]), val == 0))
+        return val
 
     def __call__(self, us):
         us = list(us)
